@@ -1170,7 +1170,7 @@ def run(ctx):
     stats["t_build_s"] = round(ctx.elapsed(), 1)
     hist = {"corpus": 0, "K": {}, "G": 0, "E": {}}
     quick = ctx.quick
-    nk, ng, ne = (80, 24, 10) if quick else (3000, 400, 400)
+    nk, ng, ne = (80, 24, 10) if quick else (2500, 400, 400)
     kc, gc, ec = make_cases(rng, nk, ng, ne, big=not quick)
     ck, ce, cg = [], [], []
     for name, c in ctx.corpus():
